@@ -17,9 +17,9 @@ inductive RStep (σ : Type) where
   | done (st : σ)
   | fail (st : σ) (e first : Err)
 
-def refStep (incl : Bytes → σ → σ × Option Err) (h : σ → Event → σ × Bool) (level : Nat)
-    (s : Bytes) (st : σ) : RStep σ :=
-  let s1 := s.dropWhile isSpace
+/-- one round after the leading whitespace has been skipped (`s1` is what follows it) -/
+def refBody (incl : Bytes → σ → σ × Option Err) (h : σ → Event → σ × Bool) (level : Nat)
+    (s1 : Bytes) (st : σ) : RStep σ :=
   if startsInclude s1 then
     if level ≥ MAX_INCLUDE then .fail st .depth .depth else
     let a := (s1.drop 8).dropWhile isBlank
@@ -48,6 +48,10 @@ def refStep (incl : Bytes → σ → σ × Option Err) (h : σ → Event → σ 
         | (st', true) => .next ((r3.dropWhile notNl).dropWhile isSpace) st'
       | [] => .fail st .syntax .syntax
 
+def refStep (incl : Bytes → σ → σ × Option Err) (h : σ → Event → σ × Bool) (level : Nat)
+    (s : Bytes) (st : σ) : RStep σ :=
+  refBody incl h level (s.dropWhile isSpace) st
+
 def refLoop (incl : Bytes → σ → σ × Option Err) (h : σ → Event → σ × Bool) (level : Nat) :
     Nat → Bytes → σ → σ × Option Err × Option Err
   | 0, _, st => (st, some .fuel, some .fuel)
@@ -59,5 +63,335 @@ def refLoop (incl : Bytes → σ → σ × Option Err) (h : σ → Event → σ 
       | .next s' st' => refLoop incl h level fuel s' st'
       | .done st' => (st', none, none)
       | .fail st' e f => (st', some e, some f)
+
+
+/-! ## the branches on a view -/
+
+theorem skip_step (f : UInt8 → Bool) {buf : Bytes} {p : Nat} {s : Bytes} (h : View buf p s) :
+    skipWhile f buf buf.length p = some (p + (s.takeWhile f).length) ∧
+    View buf (p + (s.takeWhile f).length) (s.dropWhile f) ∧
+    (s.takeWhile f).length + (s.dropWhile f).length = s.length := by
+  refine ⟨skipWhile_view f s p _ h (by have := view_lt h; omega), view_dropWhile f h, ?_⟩
+  have := length_dropWhile f s
+  have := length_takeWhile_le f s
+  omega
+
+theorem nulFree_includeLit : NulFree includeLit := by
+  intro c hc
+  simp [includeLit] at hc
+  rcases hc with rfl | rfl | rfl | rfl | rfl | rfl | rfl | rfl <;> decide
+
+theorem isIncludeAt_view {buf : Bytes} {p : Nat} {s : Bytes} (h : View buf p s) :
+    isIncludeAt buf p = some (startsInclude s) := by
+  unfold isIncludeAt startsInclude
+  rw [matchLit_view includeLit s p nulFree_includeLit h]
+  have hl : includeLit.length = 8 := rfl
+  rw [hl]
+  by_cases hm : (s.take 8 == includeLit) = true
+  · have h8 : 8 ≤ s.length := by
+      have := congrArg List.length (eq_of_beq hm)
+      simp [includeLit] at this; omega
+    rw [hm]
+    simp only [Bool.true_and]
+    rw [view_rd_at h 8 h8]
+    cases hd : s.drop 8 with
+    | nil => simp [headBlank]
+    | cons c t =>
+      have : c ≠ 0 := h.1 c (List.mem_of_mem_drop (hd ▸ List.mem_cons_self))
+      simp [this, headBlank]
+  · have hm' : (s.take 8 == includeLit) = false := by simpa using hm
+    rw [hm']; simp
+
+theorem take_takeWhile_length (f : UInt8 → Bool) (s : Bytes) :
+    s.take (s.takeWhile f).length = s.takeWhile f := by
+  have := List.take_left' (l₁ := s.takeWhile f) (l₂ := s.dropWhile f) rfl
+  rwa [takeWhile_append_dropWhile] at this
+
+/-- include branch -/
+theorem doInclude_view (incl : Bytes → σ → σ × Option Err) (level : Nat) {buf : Bytes} {p : Nat}
+    {s1 : Bytes} (st : σ) (h1 : View buf p s1) (h8 : 8 ≤ s1.length) (a : Bytes)
+    (ha : a = (s1.drop 8).dropWhile isBlank) :
+    doInclude incl level buf p st =
+      if level ≥ MAX_INCLUDE then .fail st .depth .depth else
+      match incl (trimRight (a.takeWhile notNl)) st with
+      | (st', some e) => .fail st' .incl e
+      | (st', none) => .next buf (p + 8 + ((s1.drop 8).takeWhile isBlank).length +
+                                  (a.takeWhile notNl).length) st' := by
+  have hd := view_drop h1 8 h8
+  obtain ⟨e1, hva, l1⟩ := skip_step isBlank hd
+  rw [← ha] at hva l1
+  obtain ⟨e2, hvr, l2⟩ := skip_step notNl hva
+  have hk : (a.takeWhile notNl).length ≤ a.length := length_takeWhile_le _ _
+  have e3 := trimLen_view hva _ hk
+  rw [take_takeWhile_length] at e3
+  have hvl : (trimRight (a.takeWhile notNl)).length ≤ a.length :=
+    Nat.le_trans (trimRight_length_le _) hk
+  obtain ⟨o, r1, w1, c1, w2⟩ := patch1 hva _ hvl
+  have hc : a.take (trimRight (a.takeWhile notNl)).length = trimRight (a.takeWhile notNl) := by
+    have tp := trimRight_prefix (a.takeWhile notNl)
+    have hle := trimRight_length_le (a.takeWhile notNl)
+    calc a.take (trimRight (a.takeWhile notNl)).length
+        = (a.take (a.takeWhile notNl).length).take (trimRight (a.takeWhile notNl)).length := by
+          rw [List.take_take]; congr 1; omega
+      _ = (a.takeWhile notNl).take (trimRight (a.takeWhile notNl)).length := by
+          rw [take_takeWhile_length]
+      _ = trimRight (a.takeWhile notNl) := tp.symm
+  rw [hc] at c1
+  unfold doInclude
+  by_cases hlev : level ≥ MAX_INCLUDE
+  · simp [hlev]
+  · simp only [hlev, if_false, e1, e2, Nat.add_sub_cancel_left, e3, r1, w1, c1, w2]
+    rcases incl (trimRight (a.takeWhile notNl)) st with ⟨st', _ | e⟩ <;> rfl
+
+theorem doInclude_next_view {buf : Bytes} {p : Nat} {s1 : Bytes} (h1 : View buf p s1)
+    (h8 : 8 ≤ s1.length) :
+    View buf (p + 8 + ((s1.drop 8).takeWhile isBlank).length +
+        (((s1.drop 8).dropWhile isBlank).takeWhile notNl).length)
+      (((s1.drop 8).dropWhile isBlank).dropWhile notNl) := by
+  have hd := view_drop h1 8 h8
+  exact (skip_step notNl (skip_step isBlank hd).2.1).2.1
+
+/-- section branch -/
+theorem doSection_view (h : σ → Event → σ × Bool) {buf : Bytes} {p : Nat} {c : UInt8} {t : Bytes}
+    (st : σ) (h1 : View buf p (c :: t)) :
+    doSection h buf p st =
+      match t.dropWhile sectCh with
+      | o :: _ =>
+        if o.toNat != 93 then .fail st .syntax .syntax else
+        match h st (.sect (t.takeWhile sectCh)) with
+        | (st', false) => .fail st' .badSect .badSect
+        | (st', true) => .next buf (p + 1 + (t.takeWhile sectCh).length + 1) st'
+      | [] => .fail st .syntax .syntax := by
+  have ht := view_tail h1
+  obtain ⟨e1, hvr, l1⟩ := skip_step sectCh ht
+  obtain ⟨o, r1, w1, c1, w2⟩ := patch1 ht _ (length_takeWhile_le sectCh t)
+  rw [take_takeWhile_length] at c1
+  unfold doSection
+  cases hd : t.dropWhile sectCh with
+  | nil =>
+    rw [hd] at hvr
+    have r0 := view_rd_nil hvr
+    simp [e1, r0]
+  | cons o' r =>
+    rw [hd] at hvr
+    have r0 := view_rd_cons hvr
+    have : o = o' := by rw [r0] at r1; exact (Option.some.inj r1).symm
+    subst this
+    simp only [e1, r0, w1, c1]
+    by_cases ho : (o.toNat != 93) = true
+    · simp [ho]
+    · simp only [ho]
+      rcases h st (Event.sect (t.takeWhile sectCh)) with ⟨st', _ | _⟩
+      · rfl
+      · simp only [w2]
+
+theorem doSection_next_view {buf : Bytes} {p : Nat} {c o : UInt8} {t r : Bytes}
+    (h1 : View buf p (c :: t)) (hd : t.dropWhile sectCh = o :: r) :
+    View buf (p + 1 + (t.takeWhile sectCh).length + 1) r := by
+  have hvr := (skip_step sectCh (view_tail h1)).2.1
+  rw [hd] at hvr
+  exact view_tail hvr
+
+
+/-- key = value branch -/
+theorem doKeyVal_view (h : σ → Event → σ × Bool) {buf : Bytes} {p : Nat} {s1 : Bytes} (st : σ)
+    (h1 : View buf p s1) :
+    doKeyVal h buf p st =
+      match (s1.dropWhile isKeyCh).dropWhile isBlank with
+      | e :: r2 =>
+        if e.toNat != 61 then .fail st .syntax .syntax else
+        match h st (.kv (s1.takeWhile isKeyCh) (trimRight ((r2.dropWhile isBlank).takeWhile notNl))) with
+        | (st', false) => .fail st' .badVal .badVal
+        | (st', true) =>
+          .next buf (p + (s1.takeWhile isKeyCh).length + ((s1.dropWhile isKeyCh).takeWhile isBlank).length
+                      + 1 + (r2.takeWhile isBlank).length + ((r2.dropWhile isBlank).takeWhile notNl).length
+                      + (((r2.dropWhile isBlank).dropWhile notNl).takeWhile isSpace).length) st'
+      | [] => .fail st .syntax .syntax := by
+  obtain ⟨e1, hv1, l1⟩ := skip_step isKeyCh h1
+  obtain ⟨e2, hv2, l2⟩ := skip_step isBlank hv1
+  unfold doKeyVal
+  cases hd : (s1.dropWhile isKeyCh).dropWhile isBlank with
+  | nil =>
+    rw [hd] at hv2
+    simp [e1, e2, view_rd_nil hv2]
+  | cons e r2 =>
+    rw [hd] at hv2 l2
+    have r0 := view_rd_cons hv2
+    by_cases he : (e.toNat != 61) = true
+    · simp [e1, e2, r0, he]
+    · obtain ⟨e3, hv3, l3⟩ := skip_step isBlank (view_tail hv2)
+      obtain ⟨e4, hv4, l4⟩ := skip_step notNl hv3
+      obtain ⟨e5, hv5, l5⟩ := skip_step isSpace hv4
+      have hk := length_takeWhile_le notNl (r2.dropWhile isBlank)
+      have e6 := trimLen_view hv3 _ hk
+      rw [take_takeWhile_length] at e6
+      have hle := trimRight_length_le ((r2.dropWhile isBlank).takeWhile notNl)
+      have l0 : (e :: r2).length = r2.length + 1 := rfl
+      -- the two patches, in coordinates of the view at the key
+      have hjv : p + (s1.takeWhile isKeyCh).length + ((s1.dropWhile isKeyCh).takeWhile isBlank).length
+                  + 1 + (r2.takeWhile isBlank).length
+                = p + ((s1.takeWhile isKeyCh).length + ((s1.dropWhile isKeyCh).takeWhile isBlank).length
+                  + 1 + (r2.takeWhile isBlank).length) := by omega
+      obtain ⟨o1, o2, q1, q2, w1, w2, c1, c2, w3, w4⟩ := patch2 h1 (s1.takeWhile isKeyCh).length
+        ((s1.takeWhile isKeyCh).length + ((s1.dropWhile isKeyCh).takeWhile isBlank).length
+          + 1 + (r2.takeWhile isBlank).length)
+        ((s1.takeWhile isKeyCh).length + ((s1.dropWhile isKeyCh).takeWhile isBlank).length
+          + 1 + (r2.takeWhile isBlank).length
+          + (trimRight ((r2.dropWhile isBlank).takeWhile notNl)).length)
+        (by omega) (by omega) (by omega)
+      rw [take_takeWhile_length] at c1
+      -- the view at the value is the drop of the view at the key
+      have hdrop := view_drop h1 ((s1.takeWhile isKeyCh).length
+          + ((s1.dropWhile isKeyCh).takeWhile isBlank).length + 1 + (r2.takeWhile isBlank).length)
+          (by omega)
+      rw [← hjv] at hdrop
+      have huniq : s1.drop ((s1.takeWhile isKeyCh).length
+          + ((s1.dropWhile isKeyCh).takeWhile isBlank).length + 1 + (r2.takeWhile isBlank).length)
+          = r2.dropWhile isBlank := view_unique hdrop hv3
+      rw [huniq, Nat.add_sub_cancel_left] at c2
+      have hc : (r2.dropWhile isBlank).take (trimRight ((r2.dropWhile isBlank).takeWhile notNl)).length
+          = trimRight ((r2.dropWhile isBlank).takeWhile notNl) := by
+        have tp := trimRight_prefix ((r2.dropWhile isBlank).takeWhile notNl)
+        calc (r2.dropWhile isBlank).take (trimRight ((r2.dropWhile isBlank).takeWhile notNl)).length
+            = ((r2.dropWhile isBlank).take ((r2.dropWhile isBlank).takeWhile notNl).length).take
+                (trimRight ((r2.dropWhile isBlank).takeWhile notNl)).length := by
+              rw [List.take_take]; congr 1; omega
+          _ = ((r2.dropWhile isBlank).takeWhile notNl).take
+                (trimRight ((r2.dropWhile isBlank).takeWhile notNl)).length := by
+              rw [take_takeWhile_length]
+          _ = trimRight ((r2.dropWhile isBlank).takeWhile notNl) := tp.symm
+      rw [hc] at c2
+      rw [← hjv] at c2
+      have hi2 : p + ((s1.takeWhile isKeyCh).length + ((s1.dropWhile isKeyCh).takeWhile isBlank).length
+                  + 1 + (r2.takeWhile isBlank).length
+                  + (trimRight ((r2.dropWhile isBlank).takeWhile notNl)).length)
+               = p + (s1.takeWhile isKeyCh).length + ((s1.dropWhile isKeyCh).takeWhile isBlank).length
+                  + 1 + (r2.takeWhile isBlank).length
+                  + (trimRight ((r2.dropWhile isBlank).takeWhile notNl)).length := by omega
+      rw [hi2] at q2 w2 c1 c2 w3 w4
+      simp only [e1, e2, r0, he, e3, e4, e5, Nat.add_sub_cancel_left, e6, q1, q2, w1, w2, c1, c2,
+        w3, w4]
+      rcases h st (Event.kv (s1.takeWhile isKeyCh)
+        (trimRight ((r2.dropWhile isBlank).takeWhile notNl))) with ⟨st', _ | _⟩ <;> simp
+
+theorem doKeyVal_next_view {buf : Bytes} {p : Nat} {s1 : Bytes} {e : UInt8} {r2 : Bytes}
+    (h1 : View buf p s1) (hd : (s1.dropWhile isKeyCh).dropWhile isBlank = e :: r2) :
+    View buf (p + (s1.takeWhile isKeyCh).length + ((s1.dropWhile isKeyCh).takeWhile isBlank).length
+        + 1 + (r2.takeWhile isBlank).length + ((r2.dropWhile isBlank).takeWhile notNl).length
+        + (((r2.dropWhile isBlank).dropWhile notNl).takeWhile isSpace).length)
+      (((r2.dropWhile isBlank).dropWhile notNl).dropWhile isSpace) := by
+  have hv2 := (skip_step isBlank (skip_step isKeyCh h1).2.1).2.1
+  rw [hd] at hv2
+  exact (skip_step isSpace (skip_step notNl (skip_step isBlank (view_tail hv2)).2.1).2.1).2.1
+
+
+theorem startsInclude_len {s : Bytes} (h : startsInclude s = true) : 8 ≤ s.length := by
+  unfold startsInclude at h
+  have h' : (s.take 8 == includeLit) = true := by
+    cases hb : (s.take 8 == includeLit) with
+    | true => rfl
+    | false => rw [hb] at h; simp at h
+  have := congrArg List.length (eq_of_beq h')
+  simp [includeLit] at this; omega
+
+/-- what one round of the model's loop does on a view: exactly `refStep`, the buffer unchanged,
+    the new offset again a view of the remaining text -/
+def StepMatches (buf : Bytes) (r : RStep σ) (m : Step σ) : Prop :=
+  match r with
+  | .next s' st' => ∃ p', m = .next buf p' st' ∧ View buf p' s'
+  | .done st' => m = .done buf st'
+  | .fail st' e f => m = .fail st' e f
+
+theorem stepAt_view (incl : Bytes → σ → σ × Option Err) (h : σ → Event → σ × Bool) (level : Nat)
+    {buf : Bytes} {p : Nat} {s : Bytes} (st : σ) (hv : View buf p s) :
+    StepMatches buf (refStep incl h level s st) (stepAt incl h level buf p st) := by
+  obtain ⟨e1, hv1, _⟩ := skip_step isSpace hv
+  have hi := isIncludeAt_view hv1
+  unfold stepAt refStep refBody
+  simp only [e1, hi]
+  by_cases hinc : startsInclude (s.dropWhile isSpace) = true
+  · have h8 := startsInclude_len hinc
+    simp only [hinc, if_true]
+    rw [doInclude_view incl level st hv1 h8 _ rfl]
+    by_cases hlev : level ≥ MAX_INCLUDE
+    · simp [hlev, StepMatches]
+    · simp only [hlev, if_false]
+      rcases incl (trimRight ((((s.dropWhile isSpace).drop 8).dropWhile isBlank).takeWhile notNl)) st
+        with ⟨st', _ | e⟩
+      · exact ⟨_, rfl, doInclude_next_view hv1 h8⟩
+      · simp [StepMatches]
+  · have hinc' : startsInclude (s.dropWhile isSpace) = false := by simpa using hinc
+    simp only [hinc']
+    cases hs1 : s.dropWhile isSpace with
+    | nil =>
+      rw [hs1] at hv1
+      simp [view_rd_nil hv1, StepMatches]
+    | cons c t =>
+      rw [hs1] at hv1
+      have hc0 : c ≠ 0 := view_ne hv1
+      simp only [view_rd_cons hv1, Bool.false_eq_true, if_false]
+      by_cases hcm : (c.toNat == 35 || c.toNat == 59) = true
+      · obtain ⟨e2, hv2, _⟩ := skip_step notNl hv1
+        simp only [hcm, if_true, e2]
+        exact ⟨_, rfl, hv2⟩
+      · simp only [hcm, Bool.false_eq_true, if_false]
+        by_cases hsec : (c.toNat == 91) = true
+        · simp only [hsec, if_true]
+          rw [doSection_view h st hv1]
+          cases hd : t.dropWhile sectCh with
+          | nil => simp [StepMatches]
+          | cons o r =>
+            simp only []
+            by_cases ho : (o.toNat != 93) = true
+            · simp [ho, StepMatches]
+            · simp only [ho, Bool.false_eq_true, if_false]
+              rcases h st (Event.sect (t.takeWhile sectCh)) with ⟨st', _ | _⟩
+              · simp [StepMatches]
+              · exact ⟨_, rfl, doSection_next_view hv1 hd⟩
+        · have hc0' : (c == 0) = false := by simpa using hc0
+          simp only [hsec, Bool.false_eq_true, if_false, hc0']
+          rw [doKeyVal_view h st hv1]
+          cases hd : ((c :: t).dropWhile isKeyCh).dropWhile isBlank with
+          | nil => simp [StepMatches]
+          | cons e r2 =>
+            simp only []
+            by_cases he : (e.toNat != 61) = true
+            · simp [he, StepMatches]
+            · simp only [he, Bool.false_eq_true, if_false]
+              rcases h st (Event.kv ((c :: t).takeWhile isKeyCh)
+                (trimRight ((r2.dropWhile isBlank).takeWhile notNl))) with ⟨st', _ | _⟩
+              · simp [StepMatches]
+              · exact ⟨_, rfl, doKeyVal_next_view hv1 hd⟩
+
+/-- the loop on a view computes `refLoop`; on success the buffer is the one it started with -/
+theorem loop_ref (incl : Bytes → σ → σ × Option Err) (h : σ → Event → σ × Bool) (level : Nat) :
+    ∀ (fuel : Nat) (buf : Bytes) (p : Nat) (s : Bytes) (st : σ), View buf p s →
+      let o := loop incl h level fuel buf p st
+      (o.st, o.err, o.first) = refLoop incl h level fuel s st ∧ (o.err = none → o.buf = buf) := by
+  intro fuel
+  induction fuel with
+  | zero => intro buf p s st _; simp [loop, refLoop]
+  | succ fuel ih =>
+    intro buf p s st hv
+    cases s with
+    | nil => simp [loop, refLoop, view_rd_nil hv]
+    | cons c t =>
+      have hc0 : (c == 0) = false := by simpa using view_ne hv
+      have hm := stepAt_view incl h level st hv
+      simp only [loop, refLoop, view_rd_cons hv, hc0, Bool.false_eq_true, if_false]
+      cases hr : refStep incl h level (c :: t) st with
+      | next s' st' =>
+        rw [hr] at hm
+        obtain ⟨p', hm, hv'⟩ := hm
+        rw [hm]
+        exact ih buf p' s' st' hv'
+      | done st' =>
+        rw [hr] at hm
+        simp only [StepMatches] at hm
+        rw [hm]; simp
+      | fail st' e f =>
+        rw [hr] at hm
+        simp only [StepMatches] at hm
+        rw [hm]; simp
 
 end UsualProofs.C18
